@@ -295,11 +295,18 @@ sys.path.insert(0, sys.argv[1])
 logging.disable(logging.CRITICAL)
 from jasm.global_definitions import MatchConfig, MatchingReturnMode, MatchingSearchMode
 from jasm.match import MasterOfPuppets
-rules = json.loads(sys.argv[2]); seq = json.loads(sys.argv[3]); listing = sys.argv[4]
+rules = json.loads(sys.argv[2]); seq = json.loads(sys.argv[3]); listings = json.loads(sys.argv[4])
 out = []
 with tempfile.TemporaryDirectory(prefix="jasmverif_") as d:
-    a = os.path.join(d, "in.s"); open(a, "w").write(listing)
+    a = os.path.join(d, "in.s"); open(a, "w").write(listings[0]); current = 0
     for k in seq:
+        if isinstance(k, list):
+            # [rule, listing variant]: the input file is REWRITTEN at the same path (same size) between two operations
+            k, v = k
+            if v != current:
+                st = os.stat(a); open(a, "w").write(listings[v]); os.utime(a, (st.st_atime, st.st_mtime)); current = v
+        elif current != 0:
+            st = os.stat(a); open(a, "w").write(listings[0]); os.utime(a, (st.st_atime, st.st_mtime)); current = 0
         rule = dict(rules[k])
         extra = rule.pop("_extra", None)
         p = os.path.join(d, "r%d.yaml" % k); open(p, "w").write(yaml.safe_dump(rule, sort_keys=False))
@@ -333,8 +340,13 @@ LISTING = "\n".join([
 ]) + "\n"
 
 
+# the same listing with the two leading instructions exchanged for others of the same length (a patched input, same size)
+LISTING_B = LISTING.replace("\tmov    %rax,%rbx\n    1003:\t48 01 c3             \tadd    %rax,%rbx", "\txor    %rax,%rbx\n    1003:\t48 01 c3             \tsub    %rax,%rbx", 1)
+assert len(LISTING_B) == len(LISTING) and LISTING_B != LISTING
+
+
 def run_ops(seq):
-    p = subprocess.run([ch.PY, "-c", OP_SCRIPT, common.SRC, json.dumps(RULES), json.dumps(seq), LISTING], capture_output=True, text=True, timeout=120)
+    p = subprocess.run([ch.PY, "-c", OP_SCRIPT, common.SRC, json.dumps(RULES), json.dumps(seq), json.dumps([LISTING, LISTING_B])], capture_output=True, text=True, timeout=120)
     for line in p.stdout.splitlines():
         if line.startswith("RESULT "):
             return json.loads(line[7:])
@@ -394,8 +406,18 @@ def inventory_and_pairs(run):
     seqs = [[i, j] for i in range(n) for j in range(n)]
     triples = [[i, j, i] for i in range(n) for j in range(n) if i != j]
     seqs += triples[:: (7 if tier() == "quick" else 1)]
+    # the input file changes (same path, same size, same mtime) between two operations with the same rule
+    fresh_b = {k: run_ops([[k, 1]])[0] for k in (0, 3, 5, 6)}
+    seqs_b = [[[k, v0], [k, v1]] for k in fresh_b for v0, v1 in ((0, 1), (1, 0))] + [[[k, 0], [k, 1], [k, 0]] for k in fresh_b]
     with cf.ThreadPoolExecutor(16) as ex:
         results = list(ex.map(run_ops, seqs))
+        results_b = list(ex.map(run_ops, seqs_b))
+    for seq, res in zip(seqs_b, results_b):
+        run.count("traces_validated_against_impl")
+        k, v = seq[-1]
+        want = fresh_b[k] if v == 1 else fresh[k]
+        if res[-1] != want:
+            run.failure("history/INPUT-REWRITTEN", f"rule {k} on listing variant {v} after {seq[:-1]} (same path, rewritten in place) gives {str(res[-1])[:200]} but {str(want)[:200]} in a fresh process", {"kind": "history", "seq": seq, "rules": RULES})
     for seq, res in zip(seqs, results):
         run.count("traces_validated_against_impl")
         last = seq[-1]
